@@ -106,7 +106,7 @@ def rename(node, mapping: dict):
                 n[1] = mapping.get(node[1], node[1])
             elif t == "decl":
                 n[2] = mapping.get(node[2], node[2])
-            elif t in ("mem", "write", "latch", "enable", "place"):
+            elif t in ("mem", "write", "latch", "enable", "place", "assign"):
                 if isinstance(node[1], str):
                     n[1] = mapping.get(node[1], node[1])
             elif t == "call":
@@ -326,6 +326,9 @@ class _Inliner:
             elif t == "enable":
                 ex = self.expr(s[2], pre, local_ints)
                 out += pre + [["enable", s[1], ex]]
+            elif t == "assign":
+                ex = self.expr(s[2], pre, local_ints)
+                out += pre + [["assign", s[1], ex]]
             elif t == "expr":
                 ex = self.expr(s[1], pre, local_ints)
                 out += pre
